@@ -26,6 +26,7 @@ def run(ctx):
         units += [u for u in ir.library_units() if u not in units]
     prog = ir.load_units(units)
     ctx.use_program(prog)
+    automaton.K = 3 if ctx.tier == 'thorough' else 2     # exact window of the abstract context stack
     m = build_machine(ctx, prog)
     check_machine(ctx, prog, m)
     check_exhaustive(ctx, prog)
